@@ -52,6 +52,10 @@ def run(ck, P):
             raise AnalysisBroken("m_mem_new: expected one successful path with one allocation, got %d path(s)" % len(succ))
         p = succ[0]
         reg, asize, kind = p.allocs[0]
+        ck.ob("C10.1-COVERS", site + " allocator", kind in ("calloc", "malloc"),
+              "the block comes from memhook._%s" % kind if kind in ("calloc", "malloc") else
+              "the block is obtained from %s(), not from the configured allocator (memhook): it is later handed to memhook._free — a user allocator installed with "
+              "m_set_memhook() never saw it" % kind[4:])
         off = p.ret.off
         ok1 = isinstance(off, Aff) and off.const and off.b % ALIGN == 0 and p.ret.region == reg
         ck.ob("C10.1-ALIGN", site, ok1, "returned = base + %r  (%s); size = %r" %
@@ -117,6 +121,29 @@ def run(ck, P):
         facts = X.facts(un, ev)
         ok = any(a.startswith("--") and a.endswith("->refs") and p is False for (a, p) in facts)
         ck.ob("C10.4-WHO-WRITES-REFS", un.site("%s under --refs==0" % S(ev.e["fn"])), ok, "line %d under %s" % (ev.line, fmt_facts(facts)))
+
+    # the size is reported for every live pointer, whatever else the header holds (e.g. while the destructor runs with refs == 0)
+    ms = P.fn("m_mem_size", U)
+    ck.analysed(ms)
+    exs = rules.Expander(ms, stable=False)
+    arg0 = ms.params[0]["name"]
+    bads = None
+    nsz = 0
+    for path in ms.paths():
+        asm = rules.path_assumes(path)
+        if asm.get(arg0) is False:
+            continue
+        rets = [e for e in rules.path_events(ms, path) if e.kind == "ret" and e.e is not None]
+        if not rets:
+            continue
+        nsz += 1
+        rv_ = exs.at(rets[-1], rets[-1].e)
+        if not rv_.endswith("->size") or any(k != arg0 and v is not None for k, v in asm.items()):
+            bads = (rv_, {k: v for k, v in asm.items() if k != arg0}, path)
+    ck.ob("C10.2-HEADER", ms.site("size for every live block"), bads is None and nsz > 0,
+          "m_mem_size returns the header's size field on every path with a non-NULL block, under no further condition" if bads is None else
+          "m_mem_size returns '%s' under %s: the reported size depends on something other than the block being non-NULL (e.g. it is 0 while the destructor "
+          "runs, when refs is already 0)" % (bads[0], bads[1]), path=rules.fmt_path(ms, bads[2]) if bads else None)
 
     ck.rule("C10.5-NULL-OK", "R-GUARD: every dereference of the block argument in m_mem_ref/unref/unrefp/size is dominated by a non-NULL test",
             floor=4)
